@@ -32,7 +32,9 @@ META = {
                  'dedup, plus preemption-bounded schedule enumeration of on_up / on_down / remove_host racing for one host',
     'text': 'History layer: all histories up to the depth and environment-event bounds, for 2-3 hosts, one session (two sessions '
             'in the configurations sessions-add, where the target host is not yet known to the driver and is added, and '
-            'sessions-up, where it starts down with its reconnector), one '
+            'sessions-up, where it starts down with its reconnector, and liveness-distance, where the policy reports the '
+            'target IGNORED exactly while the last thing it was told about it is on_down, as DCAwareRoundRobinPolicy does '
+            'with a remote-DC host, and the target starts down), one '
             'registered listener and one recording load-balancing policy, of: a pool connection (of either session) dies and the '
             'pool reports it; the node refuses / accepts / rejects the credentials of new connections, or (two-session '
             'configurations) refuses exactly the next connection attempt, so that the pool creations that on_add() / on_up() '
@@ -59,7 +61,9 @@ META = {
             'scheduler keeps the uniqueness rule of cluster._Scheduler; the real _Scheduler thread is not run.  With two sessions '
             'Cluster.sessions (a WeakSet) is replaced by an insertion-ordered WeakSet so that rebuilt worlds agree on which '
             'session is asked first; which pool creation completes first is enumerated.  A host that is neither up nor down '
-            '(is_up None: its addition has not completed) is not judged by the pool / reconnector clauses.',
+            '(is_up None: its addition has not completed) is not judged by the pool / reconnector clauses.  In the configuration '
+            'liveness-distance the target counts as ignored (no reconnector, no pool demanded) exactly while the policy\'s last '
+            'status notification for it is on_down.',
     'design_ref': 'C25',
 }
 
@@ -598,6 +602,13 @@ def configs(ctx):
         # die): the reconnection gets through and on_up() asks every session for a pool, likewise
         ('sessions-up', dict(hosts=2, sessions=2, targets=[t2], kinds=['fail', 'status'], modes=['up', 'down', 'once'], task_window=2,
                              pre=[('mode', t2, 'down'), ('fail', t2), ('fail', t2, 1), ('drain',)]), 8, 3),
+        # a host whose distance depends on its liveness (what a remote-DC host is under DCAwareRoundRobinPolicy with
+        # used_hosts_per_remote_dc >= 1): the policy reports it IGNORED while the last thing it was told about it is
+        # on_down (so a down host has no reconnector and comes back through STATUS UP only) and not ignored once told
+        # on_up.  Two sessions; it starts down (same prefix as sessions-up)
+        ('liveness-distance', dict(hosts=3, sessions=2, targets=[t3], ignore_while_down=[t3], kinds=['fail', 'status'],
+                                   modes=['up', 'down'], task_window=1,
+                                   pre=[('mode', t3, 'down'), ('fail', t3), ('fail', t3, 1), ('drain',)]), 7, 3),
     ]
     if ctx.thorough:
         q = [(n, p, d + 2, e + 1) for n, p, d, e in q]
